@@ -6,6 +6,7 @@
   for every value, whatever follows, in whichever look-ahead window the closing delimiter falls.
 -/
 import Imeta.Model.Xmp
+import Imeta.Lemmas.XmpTotal
 namespace Imeta.Props.C13
 open Imeta Imeta.Xmp
 
@@ -126,6 +127,9 @@ theorem elem_value_exact (f sz : Nat) (st : St) (v t' : Bytes) (c : UInt8) (v' :
     show (discard v.length >>= fun _ => pure (List.take (v.length - 0) (List.drop 0 (v ++ [60] ++ t')))) st = _
     simp only [List.drop_zero, Nat.sub_zero, List.append_assoc, List.take_left']
     rfl
+
+/-- the reader model is total: ParseXmp ends for every input without exhausting its fuel (Lemmas/XmpTotal.lean) -/
+theorem C13_parseXmp_total (b : Bytes) : ¬ Xmp.isFuel (parseXmp b).1 := parseXmp_total b
 
 /-! non-vacuity: a concrete packet through the whole reader -/
 
